@@ -31,6 +31,7 @@ Operations (model of the function named)
   opt.extern.arms <ext> <explicit>                      -> <text>       the GENERATED arms of `format_extern`, first match
   kw.table                                              -> <fn>:<variant>:<text>;…                the GENERATED keyword tables
   opt.attrs <merge> <skip> <normdoc> <attrs>            -> fail | <out>,…   out: `docs:<strs>` `d:<strs>` `t:<text>` `s:<attr>`
+  opt.attrs.flat <merge> <skip> <normdoc> <attrs>       -> fail | the same, doc comments one unit per line: `c:<text>` `d:<strs>` <attr>
   opt.attrs.run <d|c> <attrs>                           -> <n>                                    `take_while_with_pred`
   opt.doctext <inner> <value>                           -> <text>                                 `DocCommentFormatter`
   opt.pipe <N|A|P> <has>                                -> <text>
@@ -43,7 +44,8 @@ Operations (model of the function named)
   lit.lexrest <text>                                    -> <text>                  rustc_lexer `number` + suffix: the rest
 ORACLES (judge what the real formatter printed)
   opt.field.den <name> <short> <wrappers> <base> <outname> <outvalue: strs or ~ for a shorthand>  -> ok | diff
-  opt.try.judge <opt> <path> <stmt> <args> <out toks: strs>   -> ok | diff:<expected>   tokens of the printed statement
+  opt.try.judge <opt> <path> <stmt> <args> <in toks: strs> <out toks: strs>   -> ok | diff:<expected>
+        the printed tokens are the model's `TryOut.toks`, or the input's when the model declines
   opt.tuple.same <n> <in: strs> <out: strs>             -> ok | diff      `tupleDen n` of both
   opt.paren.hard <levels> <atom> <out levels> <out atom> -> ok | diff     `hard` of both, and the outer pair is kept
   opt.extern.read <ext> <text>                          -> ok | diff      `readExtern text` selects the ABI of `ext`
@@ -191,6 +193,13 @@ def encAttrOut : AttrOut → String
   | .docFromAttr t => "t:" ++ encChars t
   | .single a => "s:" ++ encAttr a
 
+/-- the units of a rewritten attribute list, doc comments line by line -/
+def flatOut : AttrOut → List String
+  | .docs ts => ts.map (fun t => "c:" ++ encChars t)
+  | .derive ps => ["d:" ++ encStrs ps]
+  | .docFromAttr t => (splitLF t).map (fun l => "c:" ++ encChars l)
+  | .single a => [encAttr a]
+
 def decClass : Char → Option ExprClass
   | 'j' => some .jump | 'w' => some .loop_ | 'o' => some .other | _ => none
 
@@ -253,12 +262,13 @@ def handle (op : String) (args : List String) : Option String :=
       match convertTry (← decBool opt) (← decChars path) (← decArgs as) (← decBool stmt) with
       | none => pure "none"
       | some o => pure (encBool o.parens ++ " " ++ encChars o.render)).getD "err"
-  | "opt.try.judge", [opt, path, stmt, as, out] => some <| (do
+  | "opt.try.judge", [opt, path, stmt, as, inp, out] => some <| (do
       let path ← decChars path
       let as ← decArgs as
+      let inp ← decStrs inp
       let out ← decStrs out
       let want := match convertTry (← decBool opt) path as (← decBool stmt) with
-        | none => [path, cs% "!", cs% "("] ++ argToks as ++ [cs% ")"]
+        | none => inp
         | some o => o.toks
       pure (if out == want then "ok" else "diff:" ++ encStrs want)).getD "err"
   | "opt.tuple", [opt, items] => some <| (do
@@ -289,6 +299,10 @@ def handle (op : String) (args : List String) : Option String :=
       match rewriteAttrs (← decBool m) (← decBool s) (← decBool n) (← decAttrs attrs) with
       | none => pure "fail"
       | some out => pure (if out.isEmpty then "_" else String.intercalate "," (out.map encAttrOut))).getD "err"
+  | "opt.attrs.flat", [m, s, n, attrs] => some <| (do
+      match rewriteAttrs (← decBool m) (← decBool s) (← decBool n) (← decAttrs attrs) with
+      | none => pure "fail"
+      | some out => pure (String.intercalate "," (out.flatMap flatOut))).getD "err"
   | "opt.attrs.run", [p, attrs] => some <| (do
       let attrs ← decAttrs attrs
       let pred ← if p == "d" then some Attr.isDerive else if p == "c" then some Attr.isDocComment else none
